@@ -289,8 +289,16 @@ class SpecDB:
         wh = I.where(node)
         pre_env = {k: freeze(I, v, st.heap) for k, v in env.items()}
         short = c.qual.split(".")[-1]
+        caller_c = self.get(st.frame.funcqual)
+        deferred = caller_c is not None and short in caller_c.opts.get("defer_call_pre", ())
         for name in c.requires:
             g = self.eval_clause(I, st, self.clause(c, name), pre_env)
+            if deferred:
+                # NOT discharged here: listed as an assumption of this run (decided by another tier / bounded monitoring)
+                I.assumed.add(f"deferred: precondition {short}.{name} at calls from {st.frame.funcqual.split('.')[-2]}.{st.frame.funcqual.split('.')[-1]} "
+                              f"(division safety) is not discharged for symbolic n; {caller_c.opts.get('defer_note', '')}")
+                st.assume(g)
+                continue
             I.oblige(st, g, "call-pre", f"{short}.{name}", wh)
         res = []
         cur = st
